@@ -1,6 +1,7 @@
 import PrysmVerif.Generated.C20
 import PrysmVerif.Lemmas.C20Jones
 import PrysmVerif.Lemmas.C20Mueller
+import PrysmVerif.Lemmas.C20Cone
 import Mathlib.Analysis.SpecialFunctions.Trigonometric.Basic
 import Mathlib.Analysis.SpecialFunctions.Exp
 /-!
@@ -419,6 +420,120 @@ example : (((Real.sqrt 2 : ℝ) : ℂ)) ^ 2 = 2 ∧ star (((Real.sqrt 2 : ℝ) :
   refine ⟨?_, ?_, by simp, by simp⟩
   · exact_mod_cast Real.sq_sqrt (by norm_num : (0 : ℝ) ≤ 2)
   · rw [Complex.star_def, Complex.conj_ofReal]
+
+/-! ## second pass: index maps of the remaining helpers, Mueller-Stokes intertwining, rotation covariance -/
+
+section wiring2
+variable {K : Type} [Field K]
+
+/-- translated obligation: `broadcast_kron` (einsum + reshape) is the Kronecker product in NumPy's ordering, entry by entry -/
+theorem gen_kron (a b : M22 K) (r c : Nat) : kronEntry a b r c = Model.C20.kron a b r c := by
+  simp only [kronEntry, Model.C20.kron]
+
+/-- translated obligation: `apply_polarization_optic` multiplies every Jones entry by the scalar field sample -/
+theorem gen_apply_optic (f : K) (J : M22 K) : applyOptic f J = M22.smul f J := by
+  apply M22.ext' <;> simp only [applyOptic, M22.smul] <;> ring
+
+/-- a spatially uniform polarisation optic commutes with polarised propagation: for every propagator that is homogeneous
+(`prop (k x) = k prop x`; every linear propagator is), propagating `J · field` component-wise gives `J · prop field` -/
+theorem adapter_uniform_optic (prop : K → K) (h : ∀ k x, prop (k * x) = k * prop x) (f : K) (J : M22 K) :
+    Model.C20.adapter prop (applyOptic f J) = applyOptic (prop f) J := by
+  rw [gen_apply_optic, gen_apply_optic]
+  apply M22.ext' <;> simp only [Model.C20.adapter, M22.map, M22.smul] <;> rw [mul_comm f _, h, mul_comm]
+
+end wiring2
+
+/-- second-pass structural facts: every component call of the adapter forwards the remaining positional and keyword arguments and
+the result container appends `(2, 2)` to a component result; `add_jones_propagation` replaces exactly the listed functions by their
+adapted versions, the default list being `supported_propagation_funcs` -/
+theorem gen_structure2 : adapterForwardsArgumentsAndShape = true ∧ addJonesWrapsEachListedFunctionInPlace = true := by decide
+
+section mueller2
+open C20Mueller Matrix Kronecker Complex
+
+/-- the generated Kronecker index map IS Mathlib's Kronecker product under the column convention `(j, k) ↦ 2 j + k` used by the
+Mueller theorems -/
+theorem kron_eq_kronecker (A B : M22 ℂ) (i j k l : Fin 2) :
+    kronEntry A B (2 * i.val + k.val) (2 * j.val + l.val) = (toMat A ⊗ₖ toMat B) (i, k) (j, l) := by
+  rw [gen_kron]
+  fin_cases i <;> fin_cases j <;> fin_cases k <;> fin_cases l <;>
+    simp [Model.C20.kron, M22.get, toMat, Matrix.kroneckerMap_apply]
+
+/-- Mueller-side rotation covariance of every element: `M(R(-θ) J R(θ)) = M(R(θ))⁻¹ M(J) M(R(θ))` -/
+theorem mueller_rotation_covariance (J : M22 ℂ) (c s : ℂ) (h : c ^ 2 + s ^ 2 = 1) :
+    muellerOf (((rotTable c (-s)).mul J).mul (rotTable c s)) = muellerOf (rotTable c (-s)) * muellerOf J * muellerOf (rotTable c s) ∧
+    muellerOf (rotTable c (-s)) * muellerOf (rotTable c s) = 1 := by
+  refine ⟨by rw [(mueller_mul _ _).1, (mueller_mul _ _).1], ?_⟩
+  rw [← (mueller_mul _ _).1, gen_rot, gen_rot, rot_neg_mul c s h]; exact (mueller_mul M22.one M22.one).2
+
+/-- coherency form of the Stokes vector of a Jones vector: `U (Ē ⊗ E)` (rows: `s₀ s₁ s₂ s₃`) -/
+noncomputable def stokesC (E : Matrix (Fin 2) (Fin 1) ℂ) : Matrix (Fin 4) (Fin 1 × Fin 1) ℂ :=
+  Umat U0 * ((E.map (starRingEnd ℂ)) ⊗ₖ E)
+
+/-- the Mueller matrix acts on Stokes vectors as the Jones matrix acts on fields: `M(J) · S(E) = S(J E)` for every complex `J`, `E` -/
+theorem mueller_stokes (J : Matrix (Fin 2) (Fin 2) ℂ) (E : Matrix (Fin 2) (Fin 1) ℂ) :
+    muellerC J * stokesC E = stokesC (J * E) := by
+  simp only [muellerCU, stokesC, Matrix.map_mul, Matrix.mul_kronecker_mul]
+  calc Umat U0 * (cj J ⊗ₖ J) * Vmat U0 * (Umat U0 * (E.map (starRingEnd ℂ) ⊗ₖ E))
+      = Umat U0 * (cj J ⊗ₖ J) * ((Vmat U0 * Umat U0) * (E.map (starRingEnd ℂ) ⊗ₖ E)) := by simp only [Matrix.mul_assoc]
+    _ = Umat U0 * (cj J ⊗ₖ J * E.map (starRingEnd ℂ) ⊗ₖ E) := by rw [V_mul_U, Matrix.one_mul, Matrix.mul_assoc]
+    _ = _ := by rfl
+
+/-- the Stokes vector of a fully polarised field lies ON the cone: `s₀ = |E_x|² + |E_y|² ≥ 0` and `s₀² = s₁² + s₂² + s₃²` -/
+theorem stokes_pure (E : Matrix (Fin 2) (Fin 1) ℂ) :
+    stokesC E 0 (0, 0) = ((normSq (E 0 0) + normSq (E 1 0) : ℝ) : ℂ) ∧
+    stokesC E 0 (0, 0) ^ 2 = stokesC E 1 (0, 0) ^ 2 + stokesC E 2 (0, 0) ^ 2 + stokesC E 3 (0, 0) ^ 2 := by
+  have e : ∀ r : Fin 4, stokesC E r (0, 0) =
+      U0 r 0 * (starRingEnd ℂ (E 0 0) * E 0 0) + U0 r 1 * (starRingEnd ℂ (E 0 0) * E 1 0) +
+      U0 r 2 * (starRingEnd ℂ (E 1 0) * E 0 0) + U0 r 3 * (starRingEnd ℂ (E 1 0) * E 1 0) := by
+    intro r
+    simp [stokesC, Matrix.mul_apply, Fintype.sum_prod_type, Fin.sum_univ_two, Umat, Matrix.kroneckerMap_apply]
+    ring
+  refine ⟨?_, ?_⟩
+  · rw [e]; simp [Model.C20.muellerU, ofInt_eq, Complex.normSq_eq_conj_mul_self]
+  · rw [e, e, e, e]; simp [Model.C20.muellerU, ofInt_eq]; ring_nf; simp [Complex.I_sq] <;> ring
+
+/-- depolarisation-free Mueller matrices map the boundary of the Stokes cone into itself: for every complex Jones matrix `J` and
+every fully polarised input `E`, the output Stokes vector `M(J) S(E)` has `s₀ = |(J E)_x|² + |(J E)_y|² ≥ 0` and
+`s₀² = s₁² + s₂² + s₃²`.  (The interior of the cone — partially polarised inputs — is `stokes_cone_preserved` below.) -/
+theorem mueller_preserves_pure_cone (J : Matrix (Fin 2) (Fin 2) ℂ) (E : Matrix (Fin 2) (Fin 1) ℂ) :
+    (muellerC J * stokesC E) 0 (0, 0) = ((normSq ((J * E) 0 0) + normSq ((J * E) 1 0) : ℝ) : ℂ) ∧
+    (muellerC J * stokesC E) 0 (0, 0) ^ 2 = (muellerC J * stokesC E) 1 (0, 0) ^ 2 + (muellerC J * stokesC E) 2 (0, 0) ^ 2 +
+      (muellerC J * stokesC E) 3 (0, 0) ^ 2 := by
+  rw [mueller_stokes]; exact stokes_pure (J * E)
+
+/-- the full clause: every real Stokes vector in the closed cone `s₀ ≥ √(s₁² + s₂² + s₃²)` (fully or partially polarised light) is mapped
+into the cone by the Mueller matrix of every Jones matrix -/
+def stokes_cone_full : Prop :=
+  ∀ (J : Matrix (Fin 2) (Fin 2) ℂ) (S : Fin 4 → ℝ), 0 ≤ S 0 → S 1 ^ 2 + S 2 ^ 2 + S 3 ^ 2 ≤ S 0 ^ 2 →
+    let S' := (mueller J).mulVec S
+    0 ≤ S' 0 ∧ S' 1 ^ 2 + S' 2 ^ 2 + S' 3 ^ 2 ≤ S' 0 ^ 2
+
+/-- `stokes_cone_full` holds (third pass; via the coherency matrix: `S₀² - |S⃗|² = 4 det C`, `C ↦ J̄ C Jᵀ`, `S₀ = tr C` a sum of two positive
+semidefinite forms) -/
+theorem stokes_cone_full_proved : stokes_cone_full := by
+  intro J S h0 hc
+  exact ⟨(C20Cone.stokes_cone J S h0 hc).1, (C20Cone.stokes_cone J S h0 hc).2.1⟩
+
+/-- depolarisation-free Mueller matrices preserve the Stokes cone, over the GENERATED `U` table: for every complex Jones matrix `J` and every
+Stokes vector with `S₀ ≥ 0`, `S₁² + S₂² + S₃² ≤ S₀²`, the image `S' = M(J) S` has `S'₀ ≥ 0`, `|S⃗'|² ≤ S'₀²`, and
+`S'₀² - |S⃗'|² = |det J|² (S₀² - |S⃗|²)` (Lorentz property: the degree of polarisation cannot be pushed above one) -/
+theorem stokes_cone_preserved (J : M22 ℂ) (S : Fin 4 → ℝ) (h0 : 0 ≤ S 0) (hc : S 1 ^ 2 + S 2 ^ 2 + S 3 ^ 2 ≤ S 0 ^ 2) :
+    let S' := (muellerOf J).mulVec S
+    0 ≤ S' 0 ∧ S' 1 ^ 2 + S' 2 ^ 2 + S' 3 ^ 2 ≤ S' 0 ^ 2 ∧
+    S' 0 ^ 2 - (S' 1 ^ 2 + S' 2 ^ 2 + S' 3 ^ 2) = normSq (J.a * J.d - J.b * J.c) * (S 0 ^ 2 - (S 1 ^ 2 + S 2 ^ 2 + S 3 ^ 2)) := by
+  have h := C20Cone.stokes_cone (toMat J) S h0 hc
+  have hd : (toMat J).det = J.a * J.d - J.b * J.c := by simp [toMat, Matrix.det_fin_two]
+  rw [hd] at h
+  simpa only [muellerOf_eq] using h
+
+/-- non-vacuity: unpolarised light `(1, 0, 0, 0)` and fully polarised `(1, 1, 0, 0)` satisfy the cone hypotheses -/
+example : (0 : ℝ) ≤ ![1, 0, 0, 0] 0 ∧ (![1, 1, 0, 0] 1 : ℝ) ^ 2 + ![1, 1, 0, 0] 2 ^ 2 + ![1, 1, 0, 0] 3 ^ 2 ≤ ![1, 1, 0, 0] 0 ^ 2 := by
+  constructor <;> simp
+
+/-- non-vacuity: a homogeneous propagator (multiplication by a transfer value) satisfies the hypothesis of `adapter_uniform_optic` -/
+example (H : ℂ) : ∀ k x : ℂ, (fun y => H * y) (k * x) = k * (fun y => H * y) x := by intro k x; ring
+end mueller2
 
 /-! ## non-vacuity -/
 section examples
